@@ -234,7 +234,9 @@ func runProperty(p *Prog, id, tier string, cfg SolverCfg, verifDir, outDir strin
 			continue
 		}
 		v := violation{Obligation: o.Name, Func: o.Func, Class: o.Class, Desc: o.Desc, Pos: fmt.Sprintf("%s:%d", o.Pos.Filename, o.Pos.Line), Status: o.Status, Output: o.Output}
-		v.Model = modelOf(j.vc, o, cfg)
+		if len(viols) < 3 { // a model query costs up to 10 s: only for the first few failed obligations
+			v.Model = modelOf(j.vc, o, cfg)
+		}
 		viols = append(viols, v)
 	}
 	sort.Strings(inlined)
